@@ -1012,9 +1012,19 @@ def canon(tree: list) -> list:
                 # longer one) - reader and writer may test a presence from opposite sides (`if flag:` / `if x is None:`)
                 if then and orelse:
                     def weight(arm: list) -> tuple:
-                        items = [x for x in arm if isinstance(x, Item)]
-                        return (sum(1 for x in items if x.kind == 'field' and x.name),
-                                sum(x.bits for x in items if isinstance(x.bits, int)), len(arm))
+                        fields = bits = 0
+                        for x in arm:
+                            if isinstance(x, Item):
+                                fields += 1 if (x.kind == 'field' and x.name) else 0
+                                bits += x.bits if isinstance(x.bits, int) else 0
+                            elif isinstance(x, Loop):
+                                f_, b_, _n = weight(x.body)
+                                fields, bits = fields + f_, bits + b_
+                            elif isinstance(x, If):
+                                f1, b1, _ = weight(x.then)
+                                f2, b2, _ = weight(x.orelse)
+                                fields, bits = fields + max(f1, f2), bits + max(b1, b2)
+                        return (fields, bits, len(arm))
                     if weight(orelse) > weight(then):
                         cond, then, orelse = negate_cond(cond), orelse, then
                 out.append(If(cond, then, orelse, n.line))
